@@ -305,7 +305,13 @@ class NotificationCenter(object):
             notifications = self._holds[key]["notifications"]
             del self._holds[key]
             for notification, observableRef, data, observerRef in notifications:
-                self.postNotification(notification, observableRef(), data, _observerRef=observerRef)
+                observable = observableRef()
+                if observable is None:
+                    # the object that posted this no longer exists:
+                    # there is nothing to tell about it, and the
+                    # notifications queued behind it must still go out.
+                    continue
+                self.postNotification(notification, observable, data, _observerRef=observerRef)
 
     def areNotificationsHeld(self, observable=None, notification=None, observer=None):
         """
